@@ -9,14 +9,14 @@ attribute [local simp] St.modGen St.modSub St.drop
 
 /-! ### the probe's counters -/
 
-theorem live_le_one_of_inv {s : St} (hi : Inv s) : s.live ≤ 1 := by
+theorem live_le_one_of_inv {s : St} (hi : Inv Pend.idle s) : s.live ≤ 1 := by
   unfold St.live
   apply filter_range_le_one s.upLive (s.subject.getD 0)
   intro k hk hl
   have := ((upLive_iff hi k hk).mp hl).1
   rw [this]; rfl
 
-theorem total_eq_ngens {s : St} (hi : Inv s) : s.total = s.ngens := by
+theorem total_eq_ngens {s : St} (hi : Inv Pend.idle s) : s.total = s.ngens := by
   unfold St.total
   apply filter_range_all
   intro k hk
@@ -24,9 +24,9 @@ theorem total_eq_ngens {s : St} (hi : Inv s) : s.total = s.ngens := by
   · rcases (hi.cur k hsub).2 with ha | hl
     · simp [ha.upSub]
     · simp [hl.upSub]
-  · simp [(hi.stale k hk hsub).upSub]
+  · simp [(hi.stale k hk hsub (by simp)).upSub]
 
-theorem live_of_active {s : St} {g : Nat} (hi : Inv s) (hsub : s.subject = some g) (ha : GenActive s g) : s.live = 1 := by
+theorem live_of_active {s : St} {g : Nat} (hi : Inv Pend.idle s) (hsub : s.subject = some g) (ha : GenActive Pend.idle s g) : s.live = 1 := by
   unfold St.live
   apply filter_range_single s.upLive g s.ngens (hi.cur g hsub).1 ((upLive_iff hi g (hi.cur g hsub).1).mpr ⟨hsub, ha⟩)
   intro k hk hl
@@ -34,7 +34,7 @@ theorem live_of_active {s : St} {g : Nat} (hi : Inv s) (hsub : s.subject = some 
   rw [hsub] at this
   exact (Option.some.inj this).symm
 
-theorem live_of_not_active {s : St} (hi : Inv s) (h : ¬ ∃ g, s.subject = some g ∧ GenActive s g) : s.live = 0 := by
+theorem live_of_not_active {s : St} (hi : Inv Pend.idle s) (h : ¬ ∃ g, s.subject = some g ∧ GenActive Pend.idle s g) : s.live = 0 := by
   unfold St.live
   rw [filter_range_eq_nil]
   · rfl
@@ -44,7 +44,7 @@ theorem live_of_not_active {s : St} (hi : Inv s) (h : ¬ ∃ g, s.subject = some
     | true => exact absurd ⟨k, (upLive_iff hi k hk).mp hl⟩ h
 
 /-- as long as one subscriber listens, the source is subscribed — exactly once -/
-theorem open_imp_live {s : St} (hi : Inv s) (ho : openSubs s ≠ []) : s.live = 1 := by
+theorem open_imp_live {s : St} (hi : Inv Pend.idle s) (ho : openSubs s ≠ []) : s.live = 1 := by
   cases hsub : s.subject with
   | none => exact absurd (hi.idle hsub).2.2 ho
   | some g =>
@@ -53,8 +53,8 @@ theorem open_imp_live {s : St} (hi : Inv s) (ho : openSubs s ≠ []) : s.live = 
     · exact absurd hl.noOpen ho
 
 /-- an open subscriber is attached to the live current generation -/
-theorem open_attached {s : St} (hi : Inv s) {i : Nat} (hlt : i < s.nsubs) (hs : (s.subs i).status = 0) :
-    ∃ g, s.subject = some g ∧ GenActive s g := by
+theorem open_attached {s : St} (hi : Inv Pend.idle s) {i : Nat} (hlt : i < s.nsubs) (hs : (s.subs i).status = 0) :
+    ∃ g, s.subject = some g ∧ GenActive Pend.idle s g := by
   have hmem : i ∈ openSubs s := mem_openSubs.mpr ⟨hlt, hs⟩
   cases hsub : s.subject with
   | none => rw [(hi.idle hsub).2.2] at hmem; cases hmem
@@ -126,11 +126,11 @@ theorem push_cnt (cfg : Cfg) (x : Ev) (s : St) : Cnt s (push cfg x s) := by
 
 /-- the creator of a new generation: after the synchronous prefix `cfg.pre k` the generation is
     live, or already reset (the reference is given back at once), or latched -/
-theorem subscribe_fresh_outcome (cfg : Cfg) {s : St} (hi : Inv s) (hsub : s.subject = none) :
+theorem subscribe_fresh_outcome (cfg : Cfg) {s : St} (hi : Inv Pend.idle s) (hsub : s.subject = none) :
     ∃ u,
-      ((FLive s.ngens s.nsubs u ∧ subscribe cfg s = liveDone s.nsubs s.ngens u) ∨
-       (FReset s.ngens s.nsubs u ∧ subscribe cfg s = resetDone s.ngens u) ∨
-       (FLatch s.ngens s.nsubs u ∧ subscribe cfg s = latchDone s.ngens u)) := by
+      ((FLive Pend.idle s.ngens s.nsubs u ∧ subscribe cfg s = liveDone s.nsubs s.ngens u) ∨
+       (FReset Pend.idle s.ngens s.nsubs u ∧ subscribe cfg s = resetDone s.ngens u) ∨
+       (FLatch Pend.idle s.ngens s.nsubs u ∧ subscribe cfg s = latchDone s.ngens u)) := by
   obtain ⟨u0, k, hsim, he⟩ := subscribe_fresh_eq cfg hi hsub
   have hl := (flive_freshState cfg.conn hi hsub).sim hsim
   refine ⟨playPre cfg s.ngens (cfg.pre k) u0, ?_⟩
@@ -140,7 +140,7 @@ theorem subscribe_fresh_outcome (cfg : Cfg) {s : St} (hi : Inv s) (hsub : s.subj
   · exact Or.inr (Or.inl ⟨h, (finish_reset cfg.flags h).1⟩)
   · exact Or.inr (Or.inr ⟨h, (finish_latch cfg.flags h).1⟩)
 
-theorem subscribe_ngens (cfg : Cfg) {s : St} (hi : Inv s) :
+theorem subscribe_ngens (cfg : Cfg) {s : St} (hi : Inv Pend.idle s) :
     (subscribe cfg s).ngens = if s.subject = none then s.ngens + 1 else s.ngens := by
   cases hsub : s.subject with
   | none =>
@@ -156,13 +156,13 @@ theorem subscribe_ngens (cfg : Cfg) {s : St} (hi : Inv s) :
 
 /-- **upstream subscribed at 0→1, joined otherwise**: a `sub` event subscribes the source exactly
     when there is no current generation, and then exactly once -/
-theorem sub_total (cfg : Cfg) {s : St} (hi : Inv s) :
+theorem sub_total (cfg : Cfg) {s : St} (hi : Inv Pend.idle s) :
     (step cfg s .sub).total = if s.subject = none then s.total + 1 else s.total := by
   show (subscribe cfg s).total = _
   rw [total_eq_ngens (subscribe_cases cfg hi), total_eq_ngens hi, subscribe_ngens cfg hi]
 
 /-- later subscribers join the running execution: the live upstream subscription is kept -/
-theorem sub_join_live (cfg : Cfg) {s : St} {g : Nat} (hi : Inv s) (hsub : s.subject = some g) :
+theorem sub_join_live (cfg : Cfg) {s : St} {g : Nat} (hi : Inv Pend.idle s) (hsub : s.subject = some g) :
     (step cfg s .sub).live = s.live ∧ (step cfg s .sub).subject = some g := by
   show (subscribe cfg s).live = _ ∧ (subscribe cfg s).subject = _
   rcases (hi.cur g hsub).2 with ha | hl
@@ -201,16 +201,16 @@ theorem closeState_counters (c : Nat) (tr : List Ev) (i g : Nat) (s : St) :
 /-- **released at 1→0 when `ResetOnRefCountZero`**: the last open subscriber leaves, no terminal
     is latched (an open subscriber exists, so the generation is live): the upstream subscription is
     released and the shared pair cleared -/
-theorem unsub_last_releases (cfg : Cfg) {s : St} {i : Nat} (hi : Inv s) (hz : cfg.flags.onZero = true)
+theorem unsub_last_releases (cfg : Cfg) {s : St} {i : Nat} (hi : Inv Pend.idle s) (hz : cfg.flags.onZero = true)
     (ho : openSubs s = [i]) :
     (step cfg s (.unsub i)).live = 0 ∧ (step cfg s (.unsub i)).subject = none := by
   have hmem : i ∈ openSubs s := by rw [ho]; simp
   obtain ⟨hlt, hs⟩ := mem_openSubs.mp hmem
   obtain ⟨g, hsub, ha⟩ := open_attached hi hlt hs
-  have hinv := inv_dUnsubscribe cfg.flags hi i hlt
+  have hinv := inv_dUnsubscribe cfg.flags hi i hlt (by simp)
   have hstep : step cfg s (.unsub i) = dUnsubscribe cfg.flags i s := by simp [step, hlt]
   rw [hstep] at *
-  have ho' := ha.subs i hlt hs
+  have ho' := ha.subs i hlt hs (by simp)
   have hrc : s.refCount = 1 := by rw [hi.count, ho]; rfl
   have hcond : (cfg.flags.onZero && (closeState 2 (s.subs i).trace i g s).refCount == 0 &&
       !(closeState 2 (s.subs i).trace i g s).flagE && !(closeState 2 (s.subs i).trace i g s).flagC) = true := by
@@ -219,7 +219,7 @@ theorem unsub_last_releases (cfg : Cfg) {s : St} {i : Nat} (hi : Inv s) (hz : cf
     rw [dUnsubscribe_open cfg.flags ho']
     unfold zeroReset
     rw [if_pos hcond]
-    obtain ⟨hi', ha'⟩ := inv_closeState (c := 2) (tr := (s.subs i).trace) hi (by decide) hlt hsub ha hs
+    obtain ⟨hi', ha'⟩ := inv_closeState (c := 2) (tr := (s.subs i).trace) hi (by decide) hlt hsub ha hs (by simp)
     exact reset_active ha'.pStatus ha'.pDone ha'.pFin ha'.ssFins ha'.ssDone hsub (by rw [hi'.shared]; exact hsub)
   have hsn : (dUnsubscribe cfg.flags i s).subject = none := by rw [e]; rfl
   refine ⟨live_of_not_active hinv ?_, hsn⟩
@@ -228,7 +228,7 @@ theorem unsub_last_releases (cfg : Cfg) {s : St} {i : Nat} (hi : Inv s) (hz : cf
 
 /-- **…and kept otherwise**: without `ResetOnRefCountZero`, or while another subscriber stays, an
     `unsub` event never touches the upstream subscription -/
-theorem unsub_keeps (cfg : Cfg) {s : St} (i : Nat) (hi : Inv s)
+theorem unsub_keeps (cfg : Cfg) {s : St} (i : Nat) (hi : Inv Pend.idle s)
     (h : cfg.flags.onZero = false ∨ 2 ≤ (openSubs s).length) :
     (step cfg s (.unsub i)).live = s.live ∧ (step cfg s (.unsub i)).total = s.total ∧
       (step cfg s (.unsub i)).subject = s.subject := by
@@ -237,7 +237,7 @@ theorem unsub_keeps (cfg : Cfg) {s : St} (i : Nat) (hi : Inv s)
     rw [hstep]
     by_cases hs : (s.subs i).status = 0
     · obtain ⟨g, hsub, ha⟩ := open_attached hi hlt hs
-      have ho' := ha.subs i hlt hs
+      have ho' := ha.subs i hlt hs (by simp)
       rw [dUnsubscribe_open cfg.flags ho']
       have hlen := length_erase_open hlt hs
       have hcount := hi.count
@@ -324,7 +324,7 @@ theorem r1_join (cfg : Cfg) {s : St} (hnn : needsNew s = false) :
 /-- **later subscribers join the running execution**: the new subscriber receives exactly what the
     connector hands out on subscription (nothing / the last value / the buffered values), is open,
     and nobody else's record is touched -/
-theorem join_active_trace (cfg : Cfg) {s : St} {g : Nat} (hi : Inv s) (hsub : s.subject = some g) (ha : GenActive s g) :
+theorem join_active_trace (cfg : Cfg) {s : St} {g : Nat} (hi : Inv Pend.idle s) (hsub : s.subject = some g) (ha : GenActive Pend.idle s g) :
     ((step cfg s .sub).subs s.nsubs).trace = Spec.joined cfg.conn (s.gens g).subj ∧
     ((step cfg s .sub).subs s.nsubs).status = 0 ∧
     (∀ k, k ≠ s.nsubs → (step cfg s .sub).subs k = s.subs k) ∧
@@ -361,7 +361,7 @@ theorem join_active_trace (cfg : Cfg) {s : St} {g : Nat} (hi : Inv s) (hsub : s.
     a subscriber arriving at the latched generation receives the connector's stored values (replay
     only) and the stored terminal, is closed at once, and nothing else changes — neither another
     subscriber's record nor any generation (so every later subscriber is served the same) -/
-theorem latched_sub (cfg : Cfg) {s : St} {g : Nat} (hi : Inv s) (hsub : s.subject = some g) (hl : GenLatched s g) :
+theorem latched_sub (cfg : Cfg) {s : St} {g : Nat} (hi : Inv Pend.idle s) (hsub : s.subject = some g) (hl : GenLatched Pend.idle s g) :
     ((step cfg s .sub).subs s.nsubs).trace = Spec.late cfg.conn (s.gens g).subj ∧
     ((step cfg s .sub).subs s.nsubs).status ≠ 0 ∧
     (∀ k, k ≠ s.nsubs → (step cfg s .sub).subs k = s.subs k) ∧
@@ -409,11 +409,11 @@ theorem latched_sub (cfg : Cfg) {s : St} {g : Nat} (hi : Inv s) (hsub : s.subjec
   | completed => exact key .complete rfl (by rw [hst]; rfl)
 
 /-- a latched generation stays latched, with the same stored values and terminal, whatever happens -/
-theorem latched_forever (cfg : Cfg) {s : St} {g : Nat} (hi : Inv s) (hsub : s.subject = some g) (hl : GenLatched s g) (e : Event) :
-    (step cfg s e).subject = some g ∧ GenLatched (step cfg s e) g ∧ (step cfg s e).gens = s.gens ∧
+theorem latched_forever (cfg : Cfg) {s : St} {g : Nat} (hi : Inv Pend.idle s) (hsub : s.subject = some g) (hl : GenLatched Pend.idle s g) (e : Event) :
+    (step cfg s e).subject = some g ∧ GenLatched Pend.idle (step cfg s e) g ∧ (step cfg s e).gens = s.gens ∧
       (step cfg s e).live = 0 ∧ (step cfg s e).total = s.total := by
   have hinv := inv_step cfg hi e
-  have hnotact : ∀ {u : St}, u.subject = some g → GenLatched u g → ¬ ∃ g', u.subject = some g' ∧ GenActive u g' := by
+  have hnotact : ∀ {u : St}, u.subject = some g → GenLatched Pend.idle u g → ¬ ∃ g', u.subject = some g' ∧ GenActive Pend.idle u g' := by
     intro u hu hlu ⟨g', hg', ha'⟩
     rw [hu] at hg'
     have : g' = g := (Option.some.inj hg').symm
@@ -443,7 +443,7 @@ theorem latched_forever (cfg : Cfg) {s : St} {g : Nat} (hi : Inv s) (hsub : s.su
         · exact he
       rw [this]; exact ⟨hsub, rfl, rfl⟩
   obtain ⟨h1, h2, h3⟩ := hcase
-  have hlat : GenLatched (step cfg s e) g := by
+  have hlat : GenLatched Pend.idle (step cfg s e) g := by
     rcases (hinv.cur g h1).2 with ha | hl'
     · have := ha.upTorn
       rw [h2, hl.upTorn] at this
@@ -502,7 +502,7 @@ theorem subjBuffer_subs (conn : Conn) (g : Nat) (v : Int) (s : St) : (subjBuffer
 
 /-- **all current subscribers receive the same notifications**: a source notification is appended,
     exactly once, to the trace of every open subscriber and to nobody else's -/
-theorem src_uniform (cfg : Cfg) {s : St} (hi : Inv s) (x : Ev) (k : Nat) (hk : k < s.nsubs) :
+theorem src_uniform (cfg : Cfg) {s : St} (hi : Inv Pend.idle s) (x : Ev) (k : Nat) (hk : k < s.nsubs) :
     ((step cfg s (.src x)).subs k).trace =
       if (s.subs k).status = 0 then (s.subs k).trace ++ [x] else (s.subs k).trace := by
   show ((push cfg x s).subs k).trace = _
@@ -621,12 +621,12 @@ theorem dTerm_vk (fl : Flags) (i : Nat) (t : Ev) (s : St) : ValKeep s (dTerm fl 
 /-- **after the source terminates**: nobody is left open, the upstream subscription is gone, and
     the shared pair is cleared exactly when the configuration resets on that terminal; otherwise
     the generation is latched with the terminal stored and the connector's values untouched -/
-theorem src_terminal (cfg : Cfg) {s : St} {g : Nat} (t : Ev) (ht : t.isTerminal = true) (hi : Inv s)
-    (hsub : s.subject = some g) (ha : GenActive s g) :
+theorem src_terminal (cfg : Cfg) {s : St} {g : Nat} (t : Ev) (ht : t.isTerminal = true) (hi : Inv Pend.idle s)
+    (hsub : s.subject = some g) (ha : GenActive Pend.idle s g) :
     (step cfg s (.src t)).live = 0 ∧ openSubs (step cfg s (.src t)) = [] ∧
     (step cfg s (.src t)).subject = (if cfg.flags.resetsOn t then none else some g) ∧
     (step cfg s (.src t)).total = s.total ∧
-    (cfg.flags.resetsOn t = false → GenLatched (step cfg s (.src t)) g ∧
+    (cfg.flags.resetsOn t = false → GenLatched Pend.idle (step cfg s (.src t)) g ∧
       ((step cfg s (.src t)).gens g).subj.status = Status.ofTerminal t ∧
       ((step cfg s (.src t)).gens g).subj.buf = (s.gens g).subj.buf) := by
   have hstep : step cfg s (.src t) = pTerm cfg g t s := by
@@ -644,8 +644,10 @@ theorem src_terminal (cfg : Cfg) {s : St} {g : Nat} (t : Ev) (ht : t.isTerminal 
       have := (upLive_iff hi g hg).mpr ⟨hsub, ha⟩
       rw [hno g hg] at this; cases this
   rw [hstep]
-  obtain ⟨hinv, hng, _, hut, _, hsj⟩ := inv_pTerm (cfg := cfg) t ht hi hsub ha
-  have hnotact : ¬ ∃ g', (pTerm cfg g t s).subject = some g' ∧ GenActive (pTerm cfg g t s) g' := by
+  obtain ⟨hinv, hng, _, hut', _, hsj, _⟩ := inv_pTerm (cfg := cfg) t ht hi hsub ha
+  have hut := hut' (by simp)
+  simp only [Pend.afterTerm_idle] at hinv
+  have hnotact : ¬ ∃ g', (pTerm cfg g t s).subject = some g' ∧ GenActive Pend.idle (pTerm cfg g t s) g' := by
     intro ⟨g', hg', ha'⟩
     rw [hsj] at hg'
     split at hg'
@@ -664,7 +666,7 @@ theorem src_terminal (cfg : Cfg) {s : St} {g : Nat} (t : Ev) (ht : t.isTerminal 
   refine ⟨live_of_not_active hinv hnotact, hno, hsj, by rw [total_eq_ngens hinv, total_eq_ngens hi, hng], ?_⟩
   intro hnr
   have hs' : (pTerm cfg g t s).subject = some g := by rw [hsj, hnr]; rfl
-  have hlat : GenLatched (pTerm cfg g t s) g := by
+  have hlat : GenLatched Pend.idle (pTerm cfg g t s) g := by
     rcases (hinv.cur g hs').2 with ha' | hl'
     · exact absurd ⟨g, hs', ha'⟩ hnotact
     · exact hl'
@@ -706,7 +708,7 @@ theorem unsub_traces (cfg : Cfg) (s : St) (i k : Nat) : ((step cfg s (.unsub i))
 
 /-- a purely hot source: the creator of a generation receives only what a brand-new connector hands
     out (nothing, or behavior's initial value): a *fresh* execution; nobody else is touched -/
-theorem fresh_hot_trace (cfg : Cfg) (hhot : cfg.Hot) {s : St} (hi : Inv s) (hsub : s.subject = none) :
+theorem fresh_hot_trace (cfg : Cfg) (hhot : cfg.Hot) {s : St} (hi : Inv Pend.idle s) (hsub : s.subject = none) :
     ((step cfg s .sub).subs s.nsubs).trace = Spec.joined cfg.conn (Subj.new cfg.conn) ∧
     ((step cfg s .sub).subs s.nsubs).status = 0 ∧
     (∀ k, k ≠ s.nsubs → (step cfg s .sub).subs k = s.subs k) ∧
